@@ -520,6 +520,10 @@ SPECS["C08"]["parts"].append(_mem_e2("C08"))
 SPECS["C19"]["parts"].append(dict(name="redis-slow", pkg="app/router", run="TestVerifC19Redis", go="go", engines=("report", "refdns", "env", "sched", "choice"), shards=1, gomaxprocs=4,
                                   files={"harness/router/zz_verif_redis_test.go": "app/router/zz_verif_redis_test.go", "harness/router/zz_verif_c19redis_test.go": "app/router/zz_verif_c19redis_test.go"},
                                   budget={"quick": 120, "thorough": 120}))
+for _pid in ("C01", "C03"):
+    SPECS[_pid]["parts"].append(dict(name="real-udp", pkg="app/router", run="TestVerifRealUDP", go="go", engines=("report", "refdns", "env", "sched", "choice"), shards=1, gomaxprocs=4,
+                                     files={"harness/router/zz_verif_realudp_test.go": "app/router/zz_verif_realudp_test.go"},
+                                     params={"quick": {"BURSTS": 150}, "thorough": {"BURSTS": 2000}}, budget={"quick": 120, "thorough": 600}))
 for _pid in ("C07", "C08"):
     SPECS[_pid]["parts"].append(dict(name="redis", pkg="app/router", run="TestVerifRedis", go="go", engines=("report", "refdns", "env", "sched", "choice"), shards=1, gomaxprocs=4,
                                      files={"harness/router/zz_verif_redis_test.go": "app/router/zz_verif_redis_test.go"}, budget={"quick": 120, "thorough": 120}))
